@@ -49,27 +49,30 @@ Record RInv (sz : Z) (r : rstate) : Prop := {
   ri_reach : reachable (r_l r);
   ri_size : size (ws (r_l r)) = sz;
   ri_spec : 0 <= r_spec r;
-  ri_real : real (r_l r) = Z.min (r_spec r) sz
+  ri_real : real (r_l r) = Z.min (r_spec r) sz;
+  ri_old : r_old r = 0
 }.
 
 Lemma rinv_init sz n : 0 < sz -> 0 <= n -> RInv sz (rinit sz n).
 Proof.
-  intros Hs Hn. constructor; cbn [rinit r_l r_spec]; auto.
+  intros Hs Hn. constructor; cbn [rinit r_l r_spec r_old]; auto.
   exists sz, n, []. repeat split; auto.
 Qed.
 
 Lemma rinv_step sz r l : 0 < sz -> RInv sz r -> rlabel_ok l -> RInv sz (rstep sz r l).
 Proof.
-  intros Hs [Hr Hz Hp Hre] Hl. destruct l as [l'|]; cbn [rstep r_l r_spec rlabel_ok] in *.
+  intros Hs [Hr Hz Hp Hre Ho] Hl. destruct l as [l'| |]; cbn [rstep r_l r_spec r_old rlabel_ok] in *.
   - destruct (size_real_step ideal (r_l r) l') as [E1 E2].
     pose proof (i_crash _ (reachable_Inv _ Hr)) as Hc. rewrite Hc in E2.
-    constructor; cbn [r_l r_spec].
+    constructor; cbn [r_l r_spec r_old]; auto.
     + now apply reachable_step.
     + congruence.
     + destruct l'; auto.
     + rewrite E2. destruct l'; auto. now rewrite Hz.
-  - constructor; cbn [r_l r_spec]; auto.
+  - destruct (is_nil (opened (r_l r))); [|constructor; auto].
+    constructor; cbn [r_l r_spec r_old]; auto.
     exists sz, (r_spec r), []. repeat split; auto.
+  - contradiction.
 Qed.
 
 Lemma rinv_run sz : 0 < sz -> forall ls r, RInv sz r -> Forall rlabel_ok ls -> RInv sz (rrun sz r ls).
@@ -85,13 +88,13 @@ Theorem cap_follows_latest_spec sz n ls :
   0 < sz -> 0 <= n -> Forall rlabel_ok ls ->
   let r := rrun sz (rinit sz n) ls in
   real (r_l r) = Z.min (r_spec r) sz /\
-  (settled (r_l r) = true -> used (r_l r) <= Z.min (r_spec r) sz) /\
-  used (r_l r) <= applied_cap (r_l r).
+  (settled (r_l r) = true -> r_serving r <= Z.min (r_spec r) sz) /\
+  r_serving r <= applied_cap (r_l r) /\ r_old r = 0.
 Proof.
-  intros Hs Hn H r. destruct (rinv_run sz Hs ls _ (rinv_init sz n Hs Hn) H) as [Hr Hz Hp Hre].
-  fold r in Hr, Hz, Hp, Hre. repeat split; auto.
-  - intros S. rewrite <- Hre. now apply cap_settled.
-  - now apply cap_general.
+  intros Hs Hn H r. destruct (rinv_run sz Hs ls _ (rinv_init sz n Hs Hn) H) as [Hr Hz Hp Hre Ho].
+  fold r in Hr, Hz, Hp, Hre, Ho. unfold r_serving. rewrite Ho. repeat split; auto.
+  - intros S. rewrite <- Hre. pose proof (cap_settled _ Hr S). lia.
+  - pose proof (cap_general _ Hr). lia.
 Qed.
 
 (** the last configured value itself: the argument of the latest SetMaxConnection, or the
@@ -106,19 +109,31 @@ Fixpoint last_spec (n : Z) (ls : list rlabel) : Z :=
 Lemma r_spec_run sz : forall ls r, r_spec (rrun sz r ls) = last_spec (r_spec r) ls.
 Proof.
   induction ls as [|l ls IH]; intros r; cbn [rrun fold_left last_spec]; auto.
-  fold (rrun sz (rstep sz r l) ls). rewrite IH. destruct l as [l'|]; cbn [rstep r_spec]; auto.
-  destruct l'; auto.
+  fold (rrun sz (rstep sz r l) ls). rewrite IH. destruct l as [l'| |]; cbn [rstep r_spec last_spec]; auto.
+  - destruct l'; auto.
+  - destruct (is_nil (opened (r_l r))); reflexivity.
 Qed.
 
 Corollary cap_is_last_configured sz n ls :
   0 < sz -> 0 <= n -> Forall rlabel_ok ls ->
   let r := rrun sz (rinit sz n) ls in
   real (r_l r) = Z.min (last_spec n ls) sz /\
-  (settled (r_l r) = true -> used (r_l r) <= Z.min (last_spec n ls) sz).
+  (settled (r_l r) = true -> r_serving r <= Z.min (last_spec n ls) sz) /\
+  r_old r = 0.
 Proof.
-  intros Hs Hn H r. destruct (cap_follows_latest_spec sz n ls Hs Hn H) as (A & B & _). fold r in A, B.
+  intros Hs Hn H r. destruct (cap_follows_latest_spec sz n ls Hs Hn H) as (A & B & _ & C). fold r in A, B, C.
   unfold r in *. rewrite r_spec_run in A, B. cbn [rinit r_spec] in A, B. auto.
 Qed.
+
+(** a listener replaced WITHOUT waiting for it to drain: the request still in flight on the old
+    listener and the connection accepted by the new one are served together - 2 with a cap of 1 *)
+Lemma undrained_restart_exceeds_cap :
+  let pre := [RStep LAcquire; RStep (LGot 0%N)] in
+  let post := [RStep LAcquire; RStep (LGot 1%N)] in
+  r_serving (rrun 20000000 (rinit 20000000 1) (pre ++ [RRestartUndrained] ++ post)) = 2 /\
+  r_serving (rrun 20000000 (rinit 20000000 1) (pre ++ [RRestart] ++ post)) = 1 /\
+  r_serving (rrun 20000000 (rinit 20000000 1) (pre ++ [RStep (LClose 0%N); RRestart] ++ post)) = 1.
+Proof. vm_compute. repeat split; reflexivity. Qed.
 
 (** non-vacuity / the seeded shape: start with 3, hot reload to 1, listener rebuilt (recovery):
     the cap in force is 1, not 3 *)
